@@ -844,6 +844,11 @@ class Walk:
                 s.live_ops.pop(op)          # refused with QuotaExceeded, nothing written
             else:
                 self.outstanding += 1
+        elif k == 'pubbig':
+            # far above the announced Maximum Packet Size (walks with max_pkt use 64): refused, nothing written, no slot taken
+            qos = rng.choice([0, 1, 2])
+            op, pid = s.publish(qos, self.h(), [('p', bytes(100 + rng.randrange(50)))], rng.choice(TOPICS))
+            s.live_ops.pop(op)       # (its packet identifier is consumed all the same: Sess.publish allocated it)
         elif k == 'sub':
             s.subscribe([(rng.choice(TOPICS), '2000')], self.h())
         elif k == 'unsub':
@@ -1335,6 +1340,11 @@ def fam_C12(rng, tier):
                 s.ping()
                 s.feed(m.pingresp())
             out.append(s.script())
+    # random traffic under a size limit that the ordinary requests of the walk fit in and the 'pubbig' ones do not
+    out += fam_walk(rng, tier, 'c12-walk', 40 if tier == 'quick' else 1500, lambda r: r.choice([15, 40, 80]),
+                    max_pkt=64, recv_max=lambda r: r.choice([None, 2, 4]),
+                    weights=dict(pubbig=5, pub0=2, pub1=4, pub2=4, sub=1, unsub=1, ping=1, ack=8, inbound=1, pubrel=0, stream=0),
+                    batch=0.15)
     return fam_C12_quota(out)
 
 
@@ -1453,6 +1463,39 @@ def fam_C13(rng, tier):
                     s.publish(0, fields=[('p', b'0123456789')])
             s.add('SNAP') if cause != 'handles' else None
             out.append(s.script())
+    # any history, then a terminating cause
+    for j in range(40 if tier == 'quick' else 2000):
+        w = Walk(rng, f'c13-walk-{j}', recv_max=rng.choice([None, 2, 5]), clones=rng.choice([1, 2]),
+                 weights=dict(inbound=3, stream=1, pubrel=1), allow_drop=rng.random() < 0.3, batch=0.1, snap=False)
+        for _ in range(rng.choice([3, 10, 30])):
+            w.step()
+        s = w.s
+        cause = rng.choice(['sdisc', 'sdisc0', 'udisc', 'udisc-batch', 'eof', 'err', 'garbage', 'badlen', 'none'])
+        if cause == 'sdisc':
+            s.feed(m.disconnect(rng.choice([r for r in m.DISCONNECT_REASONS if r]), rand_props(rng, [31, 28], p=0.5)))
+        elif cause == 'sdisc0':
+            s.feed(m.disconnect(0, None, rng.choice(['empty', 'full'])) if rng.random() < 0.5 else m.disconnect(0, []))
+        elif cause == 'udisc':
+            s.disconnect([('r', rng.choice([0, 4]))], h=w.h())
+            s.publish(0, w.h())
+        elif cause == 'udisc-batch':
+            s.add('HOLD ctx')
+            if rng.random() < 0.5:
+                s.publish(1, w.h())
+            s.disconnect([('r', 0)], h=w.h())
+            s.publish(rng.choice([0, 1, 2]), w.h())
+            s.ping(w.h())
+            s.add('RELEASE ctx')
+        elif cause == 'eof':
+            s.add('FEEDEOF')
+        elif cause == 'err':
+            s.add('FEEDERR')
+        elif cause == 'garbage':
+            s.feed(bytes([0x30, 0x03, 0x00, 0x05, 0x61]))
+        elif cause == 'badlen':
+            s.feed(bytes([0x30, 0xff, 0xff, 0xff, 0xff, 0x01]))
+        s.ping(w.h()) if cause != 'none' else None
+        out.append(s.script())
     # first response mapping for connect()/authorize()
     for call in ['CONNECT cid=63', 'AUTHORIZE r=24 am=6d ad=64', 'CONNECT cid=63 am=6d ad=64']:
         for j, resp in enumerate([m.connack(), m.connack(1, 0, [(33, 3)]), m.connack(0, 0x86, [(31, b'bad')]),
@@ -1766,6 +1809,32 @@ def fam_C17(rng, tier):
             s.add('DROPFUT')
             s.add('SNAP')
             out.append(s.script())
+    # random histories (acknowledgements in any order the broker may choose, cancelled operations, batched requests, both
+    # handshakes), then the connection is lost and the session resumed or expired; twice
+    for j in range(40 if tier == 'quick' else 1500):
+        sei, ago = rng.choice([(0, 1), (100, 5), (100, 500), (4294967295, 100000), (None, 3), (50, 49), (50, 51), (100, 5), (100, 5)])
+        w = Walk(rng, f'c17-walk-{j}', sei=sei, recv_max=rng.choice([None, None, 3, 8]),
+                 weights=dict(pub0=1, pub1=6, pub2=6, sub=1, unsub=0, ping=1, ack=7, inbound=1, pubrel=0, stream=0),
+                 allow_drop=rng.random() < 0.3, batch=0.15, snap=False)
+        for _ in range(rng.choice([6, 12, 25, 50])):
+            w.step()
+        s = w.s
+        for rnd in range(2):
+            s.add('FEEDEOF')
+            s.add('SNAP')
+            s.add(f'MARKDISC {ago}')
+            s.add('SETUP')
+            s.add('CONNECT ' + m.kvs([('cid', b'c')] + ([('sei', sei)] if sei is not None else [])))
+            s.feed(m.connack(1, 0, []))
+            s.add('RUN')
+            if rnd == 0:
+                # some of what is outstanding gets acknowledged on the resumed connection
+                for op, kind, pid in w.pending_acks()[:rng.choice([0, 1, 2, 5])]:
+                    if kind in ('puback', 'pubrec', 'pubcomp') and op in s.live_ops:
+                        w.ack(op, kind, pid, reason=0)
+        s.add('DROPFUT')
+        s.add('SNAP')
+        out.append(s.script())
     return out
 
 
